@@ -4,6 +4,7 @@ VERIF = os.path.dirname(os.path.dirname(os.path.abspath(__file__)))
 LEAN = os.path.join(VERIF, "lean")
 WORK = os.path.join(VERIF, "work")
 REPO = os.environ.get("SFS_REPO", "/repo")   # development only: a scratch copy of the repository (the registered commands use /repo)
+ALT = "" if REPO == "/repo" else "-alt"    # development sweeps build into their own target directories (cargo does not re-link an up-to-date binary when two source trees share one)
 ALLOWED_AXIOMS = {"propext", "Classical.choice", "Quot.sound"}
 FORBIDDEN = re.compile(r"\bsorry\b|\badmit\b|^\s*axiom\s|native_decide|bv_decide|implemented_by|\bunsafe\s|maxHeartbeats\s+0")
 
@@ -91,7 +92,7 @@ def build_rust(log):
     problems = []
     with Lock("cargo.lock"):
         rc, out = sh(["cargo", "build", "--offline", "--manifest-path", os.path.join(REPO, "Cargo.toml"), "-p", "sfs-cli",
-                      "--target-dir", os.path.join(WORK, "target-repo")], timeout=3600)
+                      "--target-dir", os.path.join(WORK, "target-repo" + ALT)], timeout=3600)
         log.append(out[-3000:])
         if rc != 0: problems.append("cargo build of /repo (sfs-cli) failed:\n" + out[-1500:])
         lock = os.path.join(VERIF, "harness", "Cargo.lock")
@@ -106,18 +107,18 @@ def build_rust(log):
             if not os.path.islink(os.path.join(alt, "src")): os.symlink(os.path.join(VERIF, "harness", "src"), os.path.join(alt, "src"))
             manifest = os.path.join(alt, "Cargo.toml")
         rc, out = sh(["cargo", "build", "--offline", "--manifest-path", manifest,
-                      "--target-dir", os.path.join(WORK, "target-harness")], timeout=3600)
+                      "--target-dir", os.path.join(WORK, "target-harness" + ALT)], timeout=3600)
         log.append(out[-3000:])
         if rc != 0: problems.append("harness no longer builds against /repo/core (feature verif):\n" + out[-1500:])
     return problems
 
-HARNESS = os.path.join(WORK, "target-harness", "debug", "sfs-harness")
+HARNESS = os.path.join(WORK, "target-harness" + ALT, "debug", "sfs-harness")
 DRIVER = os.path.join(LEAN, ".lake", "build", "bin", "sfsmodel")
 
 def run_correspondence(pid, tier, seed, replay=None):
     """returns (lines, verdicts, problems)"""
     problems = []
-    env = {"SFS_BIN": os.path.join(WORK, "target-repo", "debug", "sfs"), "VERIF_WORK": WORK}
+    env = {"SFS_BIN": os.path.join(WORK, "target-repo" + ALT, "debug", "sfs"), "VERIF_WORK": WORK}
     chunks = []
     if replay:
         rc, out = sh([HARNESS, "eval", "x", tier, str(seed)], env=env, stdin=open(replay, "rb").read(), timeout=7200)
@@ -302,7 +303,7 @@ def main(argv):
         "wall_s": round(wall, 2),
         "violations": 0 if violation is None else max(1, len(new_mis)),
     }
-    if not replay:
+    if not replay and REPO == "/repo":      # development sweeps over a scratch copy never write evidence
         os.makedirs(os.path.join(VERIF, "evidence"), exist_ok=True)
         with open(os.path.join(VERIF, "evidence", f"{pid}.json"), "w") as f: json.dump(ev, f, indent=1)
     with open(os.path.join(WORK, f"{pid}.log"), "w") as f: f.write("\n=====\n".join(log))
